@@ -576,6 +576,31 @@ def check_masks(ctx, F):
                           fn=f2.path, file=f2.file, line=f2.line)
 
 
+def _variant_prov(F, fn, pr, lp, item, adt, variant):
+    """provenance inside one iteration of the loop under the assumption that the loop's item is `variant`: switches on the
+    item's discriminant keep that variant's edge only; a local then denotes its definition on the remaining blocks"""
+    want = next((v["discr"] for v in F.adts[adt]["variants"] if v["name"] == variant), None)
+    if want is None:
+        return None
+    removed = []
+    for b2 in lp.body:
+        t2 = fn.blocks[b2]["term"]
+        if t2["k"] != "switch":
+            continue
+        on = P.strip(pr.operand(t2["on"]))
+        if on[0] == "discr" and P.strip(on[1]) == item:
+            labs = [l for l, _ in fn.cfg.succ_edges[b2]]
+            keep = want if want in labs else "otherwise"
+            removed += [(b2, l) for l in labs if l != keep]
+    if not removed:
+        return None
+    reach = I.reachable_avoiding(fn, removed)
+
+    class _Pth:
+        blocks = [b2 for b2 in fn.cfg.rpo() if b2 in reach] if hasattr(fn.cfg, "rpo") else sorted(reach)
+    return dtree.PathProv(fn, _Pth)
+
+
 def check_decoder_tables(ctx, F, rule, dec, bits):
     pr = P.Prov(dec)
     fl = L.for_loops(dec, pr)
@@ -587,7 +612,21 @@ def check_decoder_tables(ctx, F, rule, dec, bits):
     for lp in fl:
         src, chain = lp.chain()
         s_ = P.strip(src)
-        if s_[0] != "named" or any(c.rsplit("::", 1)[-1] not in ("iter", "into_iter", "copied") for c in chain):
+        sc_ = P.strip(src, calls=False)
+        if sc_[0] == "call" and not sc_[2] and sc_[1].rsplit("::", 1)[-1] == "all" and sc_[1].rsplit("::", 1)[0] in F.adts and \
+                all(c.rsplit("::", 1)[-1] == "into_iter" for c in chain):
+            # `SuitRange::all()` / `RankRange::all()`: the whole table that the range type's into_iter slices, in table order —
+            # which is what C13.suitrange / C13.rankrange establish; the decoder rule is made to depend on them (run())
+            rty_ = sc_[1].rsplit("::", 1)[0]
+            it0_ = F.impl_fn("std::iter::IntoIterator", rty_, "into_iter")
+            pi0_ = P.Prov(it0_)
+            bases_ = {P.strip(pi0_.operand(t0["args"][0]))[1] for bi0, t0 in it0_.calls() if t0["callee"].get("name") == "index"
+                      and bi0 in it0_.cfg.reachable and P.strip(pi0_.operand(t0["args"][0]))[0] == "named"}
+            if len(bases_) != 1:
+                raise U(rule, f"{rty_}::into_iter does not slice one constant table", dec)
+            s_ = ("named", bases_.pop(), None)
+            ctx.c13_all_deps = getattr(ctx, "c13_all_deps", []) + [(rty_, rule, dec)]
+        elif s_[0] != "named" or any(c.rsplit("::", 1)[-1] not in ("iter", "into_iter", "copied") for c in chain):
             raise U(rule, f"decoder loop does not walk a constant table directly: {P.show(src)[:60]} via {chain}", dec)
         tv = F.const_value(s_[1])
         plain = bool(tv) and "array" in tv and all(isinstance(e, str) for e in tv["array"])
@@ -654,6 +693,26 @@ def check_decoder_tables(ctx, F, rule, dec, bits):
                             return foldm(t_[2][0], var_, depth + 1)
                     return None
                 fm = {v_: foldm(mterm, v_) for v_ in tv["array"]}
+                if any(x_ is None for x_ in fm.values()):
+                    # the mask is chosen by a `match` on the entry inside the loop (`value & suit_mask(suit)` with the helper
+                    # spliced in): per variant, follow that variant's arm and fold the operand the test then reads
+                    for v_ in tv["array"]:
+                        rp_ = _variant_prov(F, dec, pr, lp, item, adt_, v_)
+                        if rp_ is None:
+                            continue
+                        tt_ = P.strip(rp_.operand(dec.blocks[b]["term"]["on"]))
+                        cands_ = []
+                        for sub_ in P.walk(tt_):
+                            sub_ = P.strip(sub_)
+                            pair_ = None
+                            if sub_[0] == "bin" and sub_[1] == "BitAnd":
+                                pair_ = (P.strip(sub_[2]), P.strip(sub_[3]))
+                            elif sub_[0] == "call" and sub_[1].rsplit("::", 1)[-1] == "bitand" and len(sub_[2]) == 2:
+                                pair_ = (P.strip(sub_[2][0]), P.strip(sub_[2][1]))
+                            if pair_ and sorted(u == ("param", 1) for u in pair_) == [False, True]:
+                                cands_.append(pair_[1] if pair_[0] == ("param", 1) else pair_[0])
+                        if len(cands_) == 1:
+                            fm[v_] = foldm(cands_[0], v_)
                 if any(x_ is None for x_ in fm.values()):
                     raise U(rule, f"the mask tested for an entry of {s_[1]} is not a foldable expression of the entry's code: {P.show(mterm)[:80]}", dec)
                 folded = fm
@@ -1035,6 +1094,11 @@ def run(ctx):
                 check_ranges(ctx, F, adt, order, rty, tc, codes[adt])
             except Unrecognised as e:
                 ctx.unrecognised(e.rule, e.msg, e.fn, e.line)
+    for (rty_, rule_, dec_) in getattr(ctx, "c13_all_deps", []):
+        dep = f"C13.{rty_.rsplit('::', 1)[-1].lower()}"
+        if any(v["rule"] == dep for v in ctx.violations):
+            ctx.violation(rule_, f"{dec_.path}|relies-on|{dep}", f"the decoder scans {rty_}::all(), and {dep} (that this is the whole table in code order) does not hold",
+                          fn=dec_.path, file=dec_.file, line=dec_.line)
     ctx.derived_card = derived(F, CARD, ["std::cmp::PartialEq", "std::cmp::Eq", "std::cmp::PartialOrd", "std::cmp::Ord", "std::hash::Hash"], ctx, "C13.card-derives")
     ctx.assume("range endpoints with start after end are outside the property's domain ('the contiguous run between its endpoints')")
     ctx.assume("std's slicing, char iteration and formatting behave as documented")
